@@ -1,5 +1,5 @@
 \* C20 export of the model's predictions (loaded modules, namespaces, unresolved references)
-SPECIFICATION SpecD
+SPECIFICATION Spec
 CONSTANTS
   EntryLists <- D_EntriesQuick
   ChainCalls = FALSE
